@@ -6,13 +6,18 @@ import Gen.C19
 
 All theorems are about `KeyFile.load/save/exportKey/importKey/legacyKey` — the definitions the
 driver `drv_C19` executes — for an arbitrary crypto bundle `C` with `L : Laws C` (hypotheses, not
-axioms); the witnesses are on the concrete instance `Sym` (`Sym.laws : Laws Sym`). -/
+axioms); the concrete files are on the instance `Sym` (`Sym.laws : Laws Sym`).
+
+`C19_noPanic`, `C19_usable`, `C19_corruption` hold at full strength (every passphrase, every file)
+since the three `fix:` commits in /repo (notes/C19.md).  The one clause that is still false of the
+code — a legacy file loads only with its own passphrase — stays a `def` with a `_fails` witness and
+a `_partial` theorem (`C19_full_iff_legacy`: it is the only obstacle to `C19_full`). -/
 namespace Spec.C19
 open KeyFile Proofs.C19
 
 variable {C : Crypto}
 
-/-! ## What holds of the code as it is -/
+/-! ## Round trip and passphrase discipline (files written by the current code) -/
 
 /-- A key saved under a passphrase loads with that passphrase to the same key, and the signer
 reports the public key of that key. (All passphrases, including empty and very long; all keys.) -/
@@ -21,7 +26,7 @@ theorem load_save (L : Laws C) (p : Bytes) (sk : C.SK) (salt nonce : Bytes)
     load C p (save C p sk salt nonce) = .ok { sk := sk, pk := C.pubOf sk } := by
   unfold load
   rw [decrypt_save L p sk salt nonce hs hn]
-  simp only [L.parsePriv_privBytes, save, fld, Option.getD_some, L.parsePub_pubBytes]
+  simp only [L.parsePriv_privBytes, save, fld, Option.getD_some, L.parsePub_pubBytes, if_true]
 
 /-- … its signatures verify under the public key it reports, and its address is the one verifiers
 derive from that key (`types.KeyAddress` = SHA-256 of the raw public key). -/
@@ -36,9 +41,10 @@ theorem wrong_passphrase (L : Laws C) (p p' : Bytes) (sk : C.SK) (salt nonce : B
     (hs : salt ≠ []) (hn : nonce.length = nonceSize) (hp : p' ≠ p) :
     load C p' (save C p sk salt nonce) = .err .auth ∧ exportKey C p' (save C p sk salt nonce) = .err .auth := by
   have hk : C.argon p salt ≠ C.argon p' salt := fun e => hp (L.argon_inj _ _ _ _ e).1.symm
+  have hs0 : ¬ (salt.length = 0 ∧ p'.length = 0) := fun h => hs (List.length_eq_zero_iff.mp h.1)
   have hd : decrypt C p' (save C p sk salt nonce) = .err .auth := by
-    unfold decrypt save
-    simp only [fld, Option.getD_some, deriveKey_salted p' salt hs, hn, ne_eq, not_true_eq_false, if_false,
+    unfold decrypt save gcmOpen
+    simp only [fld, Option.getD_some, if_neg hs0, deriveKey_salted p' salt hs, hn, ne_eq, not_true_eq_false, if_false,
       L.dec_key _ _ nonce nonce _ hk]
   exact ⟨by unfold load; rw [hd], hd⟩
 
@@ -46,24 +52,42 @@ theorem wrong_passphrase (L : Laws C) (p p' : Bytes) (sk : C.SK) (salt nonce : B
 theorem consistent_iff (L : Laws C) (s : Signer C) : s.Consistent ↔ s.pk = C.pubOf s.sk :=
   Proofs.C19.consistent_iff L s
 
-/-! ## The full statement, and why it is false of the current code -/
+/-! ## The full statement: every passphrase, every file (every field-level corruption, either format) -/
 
-/-- no (passphrase, file) pair makes `Load` panic -/
-def C19_noPanic (C : Crypto) : Prop := ∀ (p : Bytes) (f : File C), (load C p f).isPanic = false
+/-- **No (passphrase, file) pair makes `Load` or `Export` panic**: the two partial operations the
+code contains (`i % len(passphrase)`, `gcm.Open` on a nonce of the wrong length — `Panic`) are
+unreachable behind the guards of `decrypt`. -/
+theorem C19_noPanic (p : Bytes) (f : File C) :
+    (load C p f).isPanic = false ∧ (exportKey C p f).isPanic = false :=
+  ⟨by rw [load_isPanic_eq]; exact decrypt_not_panic p f, decrypt_not_panic p f⟩
 
-/-- whatever `Load` hands out is a working signer: its signatures verify under the key it reports -/
-def C19_usable (C : Crypto) : Prop := ∀ (p : Bytes) (f : File C) (s : Signer C), load C p f = .ok s → s.Consistent
+/-- **Whatever `Load` hands out is a working signer**: it reports the public key of the private
+key it signs with, so all its signatures verify under the key (and address) it reports — for every
+passphrase and every file, whatever the `pub_key` field says. -/
+theorem C19_usable (L : Laws C) (p : Bytes) (f : File C) (s : Signer C) (h : load C p f = .ok s) :
+    s.pk = C.pubOf s.sk ∧ s.Consistent ∧ address C s.pk = sha256 (C.pubBytes (C.pubOf s.sk)) := by
+  obtain ⟨_, _, _, _, he⟩ := load_ok_inv h
+  have hpk : s.pk = C.pubOf s.sk := (pubBytes_inj L he).symm
+  exact ⟨hpk, (consistent_iff L s).mpr hpk, by rw [hpk]; rfl⟩
 
-/-- a legacy-format file loads only with the passphrase it was sealed under -/
+/-- a legacy-format file loads only with the passphrase it was sealed under — **false**, see
+`legacyKey_collision` (inherent in the legacy format; known finding, not repaired) -/
 def C19_legacyOnlyItsPassphrase (C : Crypto) : Prop :=
   ∀ (p p' : Bytes) (sk : C.SK) (nonce : Bytes) (f : File C), nonce.length = nonceSize →
     saveLegacy C p sk nonce = some f → p' ≠ p → ∀ s, load C p' f ≠ .ok s
 
 /-- C19 at full strength: for all passphrases and all files (every field-level corruption of every
 file, in either format). -/
-def C19_full (C : Crypto) : Prop := C19_noPanic C ∧ C19_usable C ∧ C19_legacyOnlyItsPassphrase C
+def C19_full (C : Crypto) : Prop :=
+  (∀ (p : Bytes) (f : File C), (load C p f).isPanic = false ∧ (exportKey C p f).isPanic = false) ∧
+  (∀ (p : Bytes) (f : File C) (s : Signer C), load C p f = .ok s → s.Consistent) ∧
+  C19_legacyOnlyItsPassphrase C
 
-/-! ### Witnesses (concrete files on `Sym`) -/
+/-- the only part of the full statement the code does not meet is the legacy passphrase clause -/
+theorem C19_full_iff_legacy (L : Laws C) : C19_full C ↔ C19_legacyOnlyItsPassphrase C :=
+  ⟨fun h => h.2.2, fun h => ⟨C19_noPanic, fun p f s hl => (C19_usable L p f s hl).2.1, h⟩⟩
+
+/-! ### Concrete files on `Sym`: the inputs that used to break the property are now rejected -/
 
 def wSk : SymSK := ⟨List.replicate 32 1 ++ List.replicate 32 2, by decide⟩
 def wOtherPub : SymPK := ⟨List.replicate 32 3, by decide⟩
@@ -81,35 +105,21 @@ def wShortNonce : File Sym := { wFile with nonce := some (List.replicate 11 6) }
 /-- (c) no salt: the legacy path -/
 def wNoSalt : File Sym := { wFile with salt := none }
 
-/-- (a) `Load` succeeds on the file with the swapped public key and reports the *other* key. -/
-theorem swapped_loads : load Sym wPass wSwapped = .ok { sk := wSk, pk := wOtherPub } := by rfl
+/-- (a) the file with the swapped public key is rejected (it used to load and report the other key);
+`Export` does not look at `pub_key` and still returns the key, so the file can be repaired. -/
+theorem swapped_rejected : load Sym wPass wSwapped = .err .pubmismatch ∧
+    exportKey Sym wPass wSwapped = .ok wSk.val := ⟨by rfl, by rfl⟩
 
-theorem C19_usable_fails : ¬ C19_usable Sym := by
-  intro h
-  have hc := h wPass wSwapped _ swapped_loads
-  have := (consistent_iff Sym.laws _).mp hc
-  exact absurd (congrArg Subtype.val this) (by decide)
-
-/-- (b) a missing or short nonce reaches `gcm.Open`'s length panic, in `Load` and in `Export`. -/
-theorem missing_nonce_panics : load Sym wPass wNoNonce = .panic .nonceLen ∧
-    load Sym wPass wShortNonce = .panic .nonceLen ∧ exportKey Sym wPass wNoNonce = .panic .nonceLen :=
+/-- (b) a missing or short nonce is an error in `Load` and in `Export` (it used to reach
+`gcm.Open`'s length panic). -/
+theorem bad_nonce_rejected : load Sym wPass wNoNonce = .err .nonce ∧
+    load Sym wPass wShortNonce = .err .nonce ∧ exportKey Sym wPass wNoNonce = .err .nonce :=
   ⟨by rfl, by rfl, by rfl⟩
 
-/-- (c) a salt-less file with the empty passphrase reaches `i % 0`. -/
-theorem legacy_empty_passphrase_panics : load Sym [] wNoSalt = .panic .divZero ∧
-    load Sym [] ({} : File Sym) = .panic .divZero := ⟨by rfl, by rfl⟩
-
-theorem C19_noPanic_fails : ¬ C19_noPanic Sym := by
-  intro h
-  have := h wPass wNoNonce
-  rw [missing_nonce_panics.1] at this
-  cases this
-
-theorem C19_noPanic_fails_divZero : ¬ C19_noPanic Sym := by
-  intro h
-  have := h [] wNoSalt
-  rw [legacy_empty_passphrase_panics.1] at this
-  cases this
+/-- (c) a salt-less file with the empty passphrase is an error (it used to reach `i % 0`). -/
+theorem legacy_empty_passphrase_rejected : load Sym [] wNoSalt = .err .emptypass ∧
+    load Sym [] ({} : File Sym) = .err .emptypass ∧ exportKey Sym [] wNoSalt = .err .emptypass :=
+  ⟨by rfl, by rfl, by rfl⟩
 
 /-- (d) the legacy derivation is not injective: it ignores everything after 32 bytes, and a 1-byte
 passphrase collides with the 31-byte prefix of its own expansion. -/
@@ -126,80 +136,29 @@ theorem C19_legacyOnlyItsPassphrase_fails : ¬ C19_legacyOnlyItsPassphrase Sym :
   exact h wLong wLong' wSk wNonce wLegacy (by decide) (by rfl) (by decide)
     { sk := wSk, pk := Sym.pubOf wSk } (by rfl)
 
-theorem C19_full_fails : ¬ C19_full Sym := fun h => C19_usable_fails h.2.1
+theorem C19_full_fails : ¬ C19_full Sym := fun h => C19_legacyOnlyItsPassphrase_fails h.2.2
 
-/-! ## The strongest statements that do hold, with the excluding hypotheses explicit -/
-
-/-- No panic, **provided** the nonce has the right length and the passphrase is non-empty or the
-file is not in the legacy (salt-less) format. -/
-theorem C19_noPanic_partial (p : Bytes) (f : File C)
-    (hnonce : (fld f.nonce).length = nonceSize)
-    (hpass : p ≠ [] ∨ fld f.salt ≠ []) :
-    (load C p f).isPanic = false ∧ (exportKey C p f).isPanic = false := by
-  have := decrypt_not_panic (C := C) p f hnonce hpass
-  exact ⟨by rw [load_isPanic_eq]; exact this, this⟩
-
-/-- The two excluded cases are exactly the two panics: the hypotheses cannot be weakened. -/
-theorem C19_noPanic_partial_sharp (p : Bytes) (f : File C) :
-    (load C p f).isPanic = true ↔ ((p = [] ∧ fld f.salt = []) ∨ (fld f.nonce).length ≠ nonceSize) := by
-  constructor
-  · intro h
-    by_cases hn : (fld f.nonce).length = nonceSize
-    · by_cases hp : p ≠ [] ∨ fld f.salt ≠ []
-      · rw [(C19_noPanic_partial p f hn hp).1] at h; cases h
-      · left
-        exact ⟨Decidable.not_not.mp (fun a => hp (Or.inl a)), Decidable.not_not.mp (fun a => hp (Or.inr a))⟩
-    · exact Or.inr hn
-  · intro h
-    rw [load_isPanic_eq]
-    unfold decrypt
-    cases h with
-    | inl h => rw [h.1, h.2, deriveKey_legacy, legacyKey_nil]; rfl
-    | inr h =>
-      cases deriveKey C p (fld f.salt) with
-      | none => rfl
-      | some k => simp only [ne_eq, h, not_false_eq_true, if_true]; rfl
-
-/-- Whatever `Load` hands out is a working signer, **provided** the stored public key is the public
-key of the private key inside the file (i.e. the `pub_key` field is untouched). -/
-theorem C19_usable_partial (L : Laws C) (p : Bytes) (f : File C) (s : Signer C)
-    (h : load C p f = .ok s)
-    (hpub : fld f.pub = C.pubBytes (C.pubOf s.sk)) : s.Consistent := by
-  obtain ⟨m, _, _, hpk⟩ := load_ok_inv h
-  rw [hpub, L.parsePub_pubBytes] at hpk
-  exact (consistent_iff L s).mpr (Option.some.inj hpk).symm
-
-/-- … and that hypothesis is exactly what is needed. -/
-theorem C19_usable_iff (L : Laws C) (p : Bytes) (f : File C) (s : Signer C) (h : load C p f = .ok s) :
-    s.Consistent ↔ C.parsePub (fld f.pub) = some (C.pubOf s.sk) := by
-  obtain ⟨m, _, _, hpk⟩ := load_ok_inv h
-  rw [consistent_iff L s, hpk]
-  constructor
-  · intro e; rw [e]
-  · intro e; exact Option.some.inj e
+/-! ## Corruption -/
 
 /-- AEAD integrity, as a hypothesis on a modified ciphertext: it opens under no key. -/
 def Unopenable (C : Crypto) (ct : C.Ct) : Prop := ∀ k n, C.dec k n ct = none
 
-/-- **Every field-level corruption** of a saved file, with **any** passphrase: the ciphertext,
-nonce and salt fields may be anything (a modified ciphertext being one that opens under no key),
-and the outcome is an error or the *same* key with a matching public key — **provided** the stored
-public key is untouched, the nonce still has 12 bytes, and the passphrase is non-empty or the salt
-is still there. -/
-theorem C19_corruption_partial (L : Laws C) (p : Bytes) (sk : C.SK) (salt nonce : Bytes)
+/-- **Every field-level corruption** of a saved file, with **any** passphrase: the nonce, salt and
+public-key fields may be anything (absent, empty, any length, any bytes), the ciphertext field may
+be the original, absent, or modified (a modified ciphertext being one that opens under no key —
+the AEAD assumption), and the outcome is never a panic and never another key: it is an error or
+the *same* key with its own public key. -/
+theorem C19_corruption (L : Laws C) (p : Bytes) (sk : C.SK) (salt nonce : Bytes)
     (p' : Bytes) (f' : File C)
-    (hpub : f'.pub = (save C p sk salt nonce).pub)
-    (hnonce : (fld f'.nonce).length = nonceSize)
-    (hpass : p' ≠ [] ∨ fld f'.salt ≠ [])
     (hct : f'.ct = (save C p sk salt nonce).ct ∨ f'.ct = none ∨ ∃ ct, f'.ct = some ct ∧ Unopenable C ct) :
     (load C p' f').isErr = true ∨ load C p' f' = .ok { sk := sk, pk := C.pubOf sk } := by
-  have hnp := (C19_noPanic_partial (C := C) p' f' hnonce hpass).1
+  have hnp := (C19_noPanic (C := C) p' f').1
   cases hl : load C p' f' with
   | panic q => rw [hl] at hnp; cases hnp
   | err e => exact Or.inl rfl
   | ok s =>
     right
-    obtain ⟨m, hd, hsk, hpk⟩ := load_ok_inv hl
+    obtain ⟨m, hd, hsk, _, _⟩ := load_ok_inv hl
     obtain ⟨k, ct, _, _, hct', hdec⟩ := decrypt_ok_inv hd
     have hm : m = C.privBytes sk := by
       cases hct with
@@ -216,22 +175,19 @@ theorem C19_corruption_partial (L : Laws C) (p : Bytes) (sk : C.SK) (salt nonce 
           rw [h1] at hct'; cases hct'
           rw [h2] at hdec; cases hdec
     rw [hm, L.parsePriv_privBytes] at hsk
-    rw [hpub] at hpk
-    simp only [save, fld, Option.getD_some, L.parsePub_pubBytes] at hpk
+    have hpk := (C19_usable L p' f' s hl).1
     cases s with
     | mk ssk spk =>
       simp only at hsk hpk
-      rw [← Option.some.inj hsk, ← Option.some.inj hpk]
+      rw [hpk, ← Option.some.inj hsk]
 
-/-- In particular: corrupting only salt and/or nonce (length kept) and/or ciphertext of a saved
-file and using the right passphrase never yields a signer for a *different* key. -/
+/-- In particular: no corruption of a saved file, with any passphrase, yields a signer for a
+*different* key or one that reports a key that is not its own. -/
 theorem C19_corruption_same_key (L : Laws C) (p : Bytes) (sk : C.SK) (salt nonce : Bytes) (p' : Bytes)
     (f' : File C) (s : Signer C)
-    (hpub : f'.pub = (save C p sk salt nonce).pub) (hnonce : (fld f'.nonce).length = nonceSize)
-    (hpass : p' ≠ [] ∨ fld f'.salt ≠ [])
     (hct : f'.ct = (save C p sk salt nonce).ct ∨ f'.ct = none ∨ ∃ ct, f'.ct = some ct ∧ Unopenable C ct)
     (h : load C p' f' = .ok s) : s.sk = sk ∧ s.pk = C.pubOf sk ∧ s.Consistent := by
-  cases C19_corruption_partial L p sk salt nonce p' f' hpub hnonce hpass hct with
+  cases C19_corruption L p sk salt nonce p' f' hct with
   | inl he => rw [h] at he; cases he
   | inr ho =>
     rw [h] at ho
@@ -251,9 +207,12 @@ theorem legacy_load (L : Laws C) (p : Bytes) (sk : C.SK) (nonce : Bytes) (f : Fi
     rw [hk] at hf
     simp only [Option.map_some, Option.some.injEq] at hf
     subst hf
+    have hp0 : ¬ (([] : Bytes).length = 0 ∧ p.length = 0) := by
+      intro h
+      rw [List.length_eq_zero_iff.mp h.2, legacyKey_nil] at hk; cases hk
     unfold load decrypt
-    simp only [fld, Option.getD_none, Option.getD_some, deriveKey_legacy, hk, Option.map_some, hn, ne_eq,
-      not_true_eq_false, if_false, L.dec_enc, L.parsePriv_privBytes, L.parsePub_pubBytes]
+    simp only [fld, Option.getD_none, Option.getD_some, if_neg hp0, deriveKey_legacy, hk, Option.map_some, hn, ne_eq,
+      not_true_eq_false, if_false, gcmOpen_enc L _ _ _ hn, L.parsePriv_privBytes, L.parsePub_pubBytes, if_true]
 
 /-- … and with no passphrase that derives a different legacy key (**partial**: the derivation is
 not injective, see `legacyKey_collision`). -/
@@ -261,7 +220,7 @@ theorem C19_legacyOnlyItsPassphrase_partial (L : Laws C) (p p' : Bytes) (sk : C.
     (hf : saveLegacy C p sk nonce = some f)
     (hk : legacyKey p' ≠ legacyKey p) : ∀ s, load C p' f ≠ .ok s := by
   intro s hl
-  obtain ⟨m, hd, _, _⟩ := load_ok_inv hl
+  obtain ⟨m, hd, _, _, _⟩ := load_ok_inv hl
   obtain ⟨k, ct, hdk, _, hct, hdec⟩ := decrypt_ok_inv hd
   unfold saveLegacy at hf
   cases hkp : legacyKey p with
@@ -315,85 +274,72 @@ theorem import_export (L : Laws C) (p p2 : Bytes) (sk : C.SK) (salt nonce salt2 
   unfold importKey
   rw [L.parsePriv_privBytes]
 
-/-- For **any** file (also a legacy or tampered one): if it loads, export→import→load gives a
-signer for the same private key whose reported public key is now the right one. -/
-theorem import_export_any (L : Laws C) (p p2 : Bytes) (f : File C) (s : Signer C) (salt2 nonce2 : Bytes)
+/-- For **any** file (also a legacy one, or one whose `pub_key` was tampered with, which no longer
+loads): if `Export` returns a well-formed key, importing it gives a file that loads to a signer for
+that private key with the right public key, and re-exports the same bytes — export→import repairs
+a tampered `pub_key`. -/
+theorem import_export_any (L : Laws C) (p p2 : Bytes) (f : File C) (raw : Bytes) (sk : C.SK) (salt2 nonce2 : Bytes)
+    (hs : salt2 ≠ []) (hn : nonce2.length = nonceSize) (_he : exportKey C p f = .ok raw)
+    (hp : C.parsePriv raw = some sk) :
+    ∃ f2, importKey C p2 raw salt2 nonce2 = .ok f2 ∧
+      load C p2 f2 = .ok { sk := sk, pk := C.pubOf sk } ∧ exportKey C p2 f2 = .ok (C.privBytes sk) := by
+  refine ⟨save C p2 sk salt2 nonce2, ?_, load_save L p2 sk salt2 nonce2 hs hn, export_save L p2 sk salt2 nonce2 hs hn⟩
+  unfold importKey; rw [hp]
+
+/-- … in particular for every file that loads: export→import→load gives the same signer. -/
+theorem import_export_loaded (L : Laws C) (p p2 : Bytes) (f : File C) (s : Signer C) (salt2 nonce2 : Bytes)
     (hs : salt2 ≠ []) (hn : nonce2.length = nonceSize) (hl : load C p f = .ok s) :
     ∃ raw f2, exportKey C p f = .ok raw ∧ importKey C p2 raw salt2 nonce2 = .ok f2 ∧
-      load C p2 f2 = .ok { sk := s.sk, pk := C.pubOf s.sk } ∧ exportKey C p2 f2 = .ok (C.privBytes s.sk) := by
-  obtain ⟨m, hd, hsk, _⟩ := load_ok_inv hl
-  refine ⟨m, save C p2 s.sk salt2 nonce2, hd, ?_, load_save L p2 s.sk salt2 nonce2 hs hn, ?_⟩
-  · unfold importKey; rw [hsk]
-  · exact export_save L p2 s.sk salt2 nonce2 hs hn
+      load C p2 f2 = .ok s ∧ exportKey C p2 f2 = .ok (C.privBytes s.sk) := by
+  obtain ⟨m, hd, hsk, _, _⟩ := load_ok_inv hl
+  obtain ⟨f2, h1, h2, h3⟩ := import_export_any L p p2 f m s.sk salt2 nonce2 hs hn hd hsk
+  have hpk := (C19_usable L p f s hl).1
+  refine ⟨m, f2, hd, h1, ?_, h3⟩
+  rw [h2, ← hpk]
 
-/-! ## The proposed repair is sufficient (`loadFixed`, notes/C19.md) -/
+/-! ## What the repair changed (`loadPre` = the behaviour before the three `fix:` commits) -/
 
-theorem fixed_noPanic (p : Bytes) (f : File C) : (loadFixed C p f).isPanic = false := by
-  have hd : (decryptFixed C p f).isPanic = false := by
-    unfold decryptFixed
-    split
-    · rfl
-    · next h1 =>
-      split
-      · rfl
-      · next h2 =>
-        refine decrypt_not_panic p f (Decidable.not_not.mp h2) ?_
-        by_cases hp : p = []
-        · right; intro hs; exact h1 ⟨by rw [hs]; rfl, by rw [hp]; rfl⟩
-        · exact Or.inl hp
-  unfold loadFixed
-  cases hdf : decryptFixed C p f with
-  | panic q => rw [hdf] at hd; cases hd
-  | err e => rfl
-  | ok m =>
-    simp only
-    cases C.parsePriv m with
-    | none => rfl
-    | some sk =>
-      cases C.parsePub (fld f.pub) with
+/-- the unguarded code panicked **exactly** on the two inputs the guards reject: the guards are
+necessary as well as sufficient -/
+theorem repair_guards_sharp (p : Bytes) (f : File C) :
+    (loadPre C p f).isPanic = true ↔ ((p = [] ∧ fld f.salt = []) ∨ (fld f.nonce).length ≠ nonceSize) := by
+  rw [← decryptPre_isPanic]
+  have : (loadPre C p f).isPanic = (decryptPre C p f).isPanic := by
+    unfold loadPre
+    cases decryptPre C p f with
+    | panic q => rfl
+    | err e => rfl
+    | ok m =>
+      simp only
+      cases C.parsePriv m with
       | none => rfl
-      | some pk => simp only; split <;> rfl
-
-theorem pubBytes_inj (L : Laws C) {a b : C.PK} (h : C.pubBytes a = C.pubBytes b) : a = b := by
-  have := L.parsePub_pubBytes a
-  rw [h, L.parsePub_pubBytes] at this
-  exact (Option.some.inj this).symm
-
-/-- with the repair, **every** file and passphrase: whatever loads is a working signer -/
-theorem fixed_usable (L : Laws C) (p : Bytes) (f : File C) (s : Signer C) (h : loadFixed C p f = .ok s) :
-    s.Consistent := by
-  unfold loadFixed at h
-  split at h
-  · cases h
-  · cases h
-  · split at h
-    · cases h
-    · next sk _ =>
-      split at h
-      · cases h
-      · next pk _ =>
-        split at h
-        · next he =>
-          cases h
-          exact (consistent_iff L _).mpr (pubBytes_inj L he).symm
-        · cases h
+      | some sk => cases C.parsePub (fld f.pub) <;> rfl
+  rw [this]
 
 /-- the repair rejects nothing that was right: a load that gave a working signer still gives it -/
-theorem fixed_conservative (L : Laws C) (p : Bytes) (f : File C) (s : Signer C) (h : load C p f = .ok s)
-    (hc : s.Consistent) : loadFixed C p f = .ok s := by
-  have hnp : (load C p f).isPanic = false := by rw [h]; rfl
+theorem repair_conservative (L : Laws C) (p : Bytes) (f : File C) (s : Signer C) (h : loadPre C p f = .ok s)
+    (hc : s.Consistent) : load C p f = .ok s := by
+  have hnp : (loadPre C p f).isPanic = false := by rw [h]; rfl
   have hsharp : ¬ ((p = [] ∧ fld f.salt = []) ∨ (fld f.nonce).length ≠ nonceSize) := fun hh => by
-    have := (C19_noPanic_partial_sharp (C := C) p f).mpr hh
+    have := (repair_guards_sharp (C := C) p f).mpr hh
     rw [hnp] at this; cases this
-  obtain ⟨m, hd, hsk, hpk⟩ := load_ok_inv h
+  obtain ⟨m, hd, hsk, hpk⟩ := loadPre_ok_inv h
   have h1 : ¬ ((fld f.salt).length = 0 ∧ p.length = 0) := fun hh =>
     hsharp (Or.inl ⟨List.length_eq_zero_iff.mp hh.2, List.length_eq_zero_iff.mp hh.1⟩)
-  have h2 : ¬ (fld f.nonce).length ≠ nonceSize := fun hh => hsharp (Or.inr hh)
+  have h2 : (fld f.nonce).length = nonceSize := Decidable.not_not.mp fun hh => hsharp (Or.inr hh)
   have hpkeq : s.pk = C.pubOf s.sk := (consistent_iff L s).mp hc
-  unfold loadFixed decryptFixed
-  rw [if_neg h1, if_neg h2, hd]
+  unfold load
+  rw [decrypt_eq_pre p f h1 h2, hd]
   simp only [hsk, hpk]
   rw [if_pos (by rw [hpkeq])]
+
+/-- … and accepts nothing new: whatever loads now loaded before, to the same signer -/
+theorem repair_accepts_nothing_new (p : Bytes) (f : File C) (s : Signer C) (h : load C p f = .ok s) :
+    loadPre C p f = .ok s := by
+  obtain ⟨m, hd, hsk, hpk, _⟩ := load_ok_inv h
+  unfold loadPre
+  rw [decrypt_ok_pre hd]
+  simp only [hsk, hpk]
 
 /-! ## Address: the three derivations in the tree and the model agree (facts regenerated from /repo on every run) -/
 
@@ -419,7 +365,7 @@ example : load Sym [] (save Sym [] wSk wSalt wNonce) = .ok { sk := wSk, pk := Sy
   load_save Sym.laws [] wSk wSalt wNonce (by decide) (by decide)
 example : load Sym [112] wFile = .err .auth :=
   (wrong_passphrase Sym.laws wPass [112] wSk wSalt wNonce (by decide) (by decide) (by decide)).1
-/-- a corruption covered by `C19_corruption_partial` that ends in an error (salt bit flipped) … -/
+/-- a corruption covered by `C19_corruption` that ends in an error (salt bit flipped) … -/
 example : (load Sym wPass { wFile with salt := some (List.replicate 16 4) }).isErr = true := by rfl
 /-- … one that ends in an error via the legacy path (salt lost, passphrase non-empty) … -/
 example : (load Sym wPass wNoSalt).isErr = true := by rfl
@@ -428,9 +374,17 @@ example : Unopenable Sym SymCt.garbage := fun _ _ => rfl
 example : (load Sym wPass { wFile with ct := some SymCt.garbage }).isErr = true := by rfl
 /-- … and the untouched file, which is covered too and loads. -/
 example : (load Sym wPass wFile).isErr = true ∨ load Sym wPass wFile = .ok { sk := wSk, pk := Sym.pubOf wSk } :=
-  C19_corruption_partial Sym.laws wPass wSk wSalt wNonce wPass wFile rfl (by decide) (Or.inl (by decide)) (Or.inl rfl)
-example : (load Sym wPass wFile).isPanic = false :=
-  (C19_noPanic_partial wPass wFile (by decide) (Or.inl (by decide))).1
+  C19_corruption Sym.laws wPass wSk wSalt wNonce wPass wFile (Or.inl rfl)
+/-- corruptions of the public key, nonce and salt fields are covered by `C19_corruption` and end in errors -/
+example : (load Sym wPass wSwapped).isErr = true ∧ (load Sym wPass wNoNonce).isErr = true ∧
+    (load Sym [] wNoSalt).isErr = true := ⟨by rfl, by rfl, by rfl⟩
+example : (load Sym wPass wNoNonce).isPanic = false := (C19_noPanic wPass wNoNonce).1
+/-- `C19_usable` is not vacuous: files load (legacy format: see `legacy_load` below) -/
+example : ∃ s, load Sym wPass wFile = .ok s ∧ s.Consistent :=
+  ⟨_, load_save Sym.laws wPass wSk wSalt wNonce (by decide) (by decide), fun m => Sym.laws.verify_sign wSk m⟩
+/-- the pre-repair behaviour on the three witnesses (what `repair_*` talk about) -/
+example : loadPre Sym wPass wSwapped = .ok { sk := wSk, pk := wOtherPub } ∧
+    loadPre Sym wPass wNoNonce = .panic .nonceLen ∧ loadPre Sym [] wNoSalt = .panic .divZero := ⟨by rfl, by rfl, by rfl⟩
 example : (saveLegacy Sym [1, 2, 3] wSk wNonce).isSome = true := by rfl
 example : ∃ f, saveLegacy Sym [1, 2, 3] wSk wNonce = some f ∧ load Sym [1, 2, 3] f = .ok { sk := wSk, pk := Sym.pubOf wSk } ∧
     ∀ s, load Sym [1, 2, 4] f ≠ .ok s := by
@@ -445,8 +399,9 @@ example : ∃ raw, exportKey Sym wPass wFile = .ok raw ∧
     importKey Sym [9] raw wSalt wNonce = .ok (save Sym [9] wSk wSalt wNonce) :=
   import_export Sym.laws wPass [9] wSk wSalt wNonce wSalt wNonce (by decide) (by decide)
 /-- export→import repairs the swapped public key of witness (a) -/
-example : ∃ raw f2, exportKey Sym wPass wSwapped = .ok raw ∧ importKey Sym wPass raw wSalt wNonce = .ok f2 ∧
+example : ∃ f2, importKey Sym wPass wSk.val wSalt wNonce = .ok f2 ∧
     load Sym wPass f2 = .ok { sk := wSk, pk := Sym.pubOf wSk } ∧ exportKey Sym wPass f2 = .ok (Sym.privBytes wSk) :=
-  import_export_any Sym.laws wPass wPass wSwapped _ wSalt wNonce (by decide) (by decide) swapped_loads
+  import_export_any Sym.laws wPass wPass wSwapped wSk.val wSk wSalt wNonce (by decide) (by decide)
+    swapped_rejected.2 (by rfl)
 
 end Spec.C19
